@@ -448,6 +448,59 @@ func main() {
 			}
 		})
 
+		// A refusal replayed to Dialer.OnStatusError: the callback is handed "the server response
+		// bytes"; what it reads - status, reason and the bytes - is the response the server sent,
+		// whatever the read buffer size (status lines shorter than, as long as, and much longer than
+		// the buffer) and however the transport cuts the response.
+		r.Part("E2e-refusal-replay-independent-of-buffer-and-chunking", func(t *explore.T) {
+			bufs := []int{0, 16, 17, 18, 19, 20, 21, 22, 23, 24, 25, 32, 64, 512, 4096}
+			for _, reasonLen := range []int{0, 2, 9, 50, 5000} {
+				for _, nl := range []string{"\r\n", "\n"} {
+					for _, body := range []string{"", "denied", strings.Repeat("b", 300)} {
+						reasonLen, nl, body := reasonLen, nl, body
+						t.DoN(int64(len(bufs)*3), func() string {
+							return fmt.Sprintf("403 with a reason phrase of %d bytes, line ending %q, body of %d bytes, read buffers %v x transport chunks 0/1/7", reasonLen, nl, len(body), bufs)
+						}, func() *explore.Fail {
+							reason := strings.Repeat("Forbidden", reasonLen/9+1)[:reasonLen]
+							resp := "HTTP/1.1 403 " + reason + nl + "Content-Type: text/plain" + nl + fmt.Sprintf("Content-Length: %d", len(body)) + nl + nl + body
+							for _, B := range bufs {
+								for _, chunk := range []int{0, 1, 7} {
+									conn := &hs.LazyConn{Policy: env.FixedChunk(chunk)}
+									conn.Respond = func([]byte) []byte { return []byte(resp) }
+									var replay []byte
+									var gotReason string
+									gotCode, called := 0, 0
+									d := ws.Dialer{ReadBufferSize: B, OnStatusError: func(code int, rs []byte, r io.Reader) {
+										called++
+										gotCode, gotReason = code, string(rs)
+										replay, _ = io.ReadAll(r)
+									}}
+									_, _, err := d.Upgrade(conn, theURL)
+									if err == nil || called != 1 {
+										return explore.Failf("refusal-not-reported-once", "buffer %d chunk %d: err=%v callback calls=%d", B, chunk, err, called)
+									}
+									if gotCode != 403 || gotReason != reason {
+										return explore.Failf("refusal-status-or-reason-differs", "buffer %d chunk %d: code=%d reason=%q", B, chunk, gotCode, gotReason)
+									}
+									// the line ending of the status line is normalised to CRLF by the replay
+									want := "HTTP/1.1 403 " + reason + "\r\n" + resp[len("HTTP/1.1 403 "+reason+nl):]
+									if string(replay) != want {
+										k := 0
+										for k < len(replay) && k < len(want) && replay[k] == want[k] {
+											k++
+										}
+										return explore.Failf("replayed-refusal-differs-from-the-response-sent", "buffer %d chunk %d: %d bytes replayed, %d sent, first difference at %d", B, chunk, len(replay), len(want), k)
+									}
+								}
+							}
+							return nil
+						})
+					}
+				}
+			}
+			t.Outcome("replayed-as-sent")
+		})
+
 		// net/http flavour: the request (possibly with bytes behind it that the client sent
 		// early) is parsed by net/http's buffered reader, which Hijack hands to the upgrader with
 		// whatever it happened to buffer. The same bytes cut into reads differently give the same
